@@ -336,7 +336,8 @@ class Bench:
         for name in os.listdir(root):
             p = os.path.join(root, name)
             shutil.rmtree(p) if os.path.isdir(p) else os.unlink(p)
-        self.key = os.path.join(root, "the.cincokey")
+        self.key = os.path.join(root, "keys", "the.cincokey")
+        os.mkdir(os.path.join(root, "keys"))
         # (the file name holds a "$": a path is taken literally - only "~" is expanded - by save and load alike)
         os.environ.setdefault("CINCOVAR", "elsewhere")
         self.destname = case.get("destname", "dest-$CINCOVAR.cfg")
@@ -457,6 +458,10 @@ class Bench:
     def set_key(self, ks, size=16):
         if ks == "keep":
             return
+        if ks == "nodir":
+            shutil.rmtree(os.path.dirname(self.key), ignore_errors=True)
+            return
+        os.makedirs(os.path.dirname(self.key), exist_ok=True)
         if ks == "absent":
             if os.path.exists(self.key):
                 os.unlink(self.key)
@@ -470,7 +475,7 @@ class Bench:
             with _ORIG["builtins.open"](self.key, "rb") as fp:
                 d = fp.read()
         except OSError:
-            return "absent"
+            return "absent" if os.path.isdir(os.path.dirname(self.key)) else "nodir"
         if d == K1:
             return "K1"
         return "G" if len(d) == 32 else "bad"
@@ -791,7 +796,7 @@ def gen_case(rng):
             for f in rng.sample(universe, min(len(universe), rng.choice([1, 1, 1, 2, 3]))):
                 if f not in faults:
                     faults.append(f)
-        ks = rng.choice(["K1"] * 5 + ["bad", "absent"] if r == 0 else ["keep"] * 5 + ["K1", "bad", "absent"])
+        ks = rng.choice(["K1"] * 5 + ["bad", "absent", "nodir"] if r == 0 else ["keep"] * 5 + ["K1", "bad", "absent", "nodir"])
         kw = {}
         if rng.random() < 0.3 and not any(f[0].startswith("fmt") for f in faults):
             kw = {"json": {"pretty": False}, "yaml": {"root_key": "ROOT"}, "xml": {"root_tag": "cfgroot"}}.get(fmt, {})
